@@ -215,13 +215,25 @@ def run(ctx):
           [(f, 'double') for f in P.fns.values() if f.brecord == J + '::traits' and f.short == 'set' and f.file.endswith('cppcms/json.h') and len(f.params) == 2 and 'long double' in (f.types[f.params[1]['t']] or '')]
     ctx.require(len(nar) == 2 or ctx.violations, 'C11.R7: traits<float>::get / traits<long double>::set not found (%d)' % len(nar))
     for f, tgt in nar:
-        lim = [model_strip(f.callee(i) or '') for i in f.calls() if q.short_of(f.callee(i) or '') in ('max', 'lowest', 'min') and 'numeric_limits' in (f.callee(i) or '')]
-        g = f.gate_edges(lambda atom, pol, f=f: f.N(atom)['k'] == 'BinaryOperator' and f.N(atom).get('op') in ('<', '>') and pol is False and
-                         any('numeric_limits' in (f.callee(j) or '') for j in q.expr_calls_deep(f, atom)))
+        limc = [i for i in f.calls() if q.short_of(f.callee(i) or '') in ('max', 'lowest', 'min') and 'numeric_limits' in (f.callee(i) or '')]
+        lim = [model_strip(f.callee(i) or '') for i in limc]
+        # a limit may be kept in a local first (`float const float_max = numeric_limits<float>::max();`)
+        limv = set(d_['ref'] for j_ in f.all_nodes() if f.N(j_)['k'] == 'DeclStmt' for d_ in f.N(j_)['decls'] if d_.get('init') is not None and f.strip(d_['init']) in limc)
+        is_lim = lambda x: any(j in limc for j in f.walk(x)) or any(rf in limv for rf in f.subtree_refs(x))
+        negs = [i for i in f.all_nodes() if f.N(i)['k'] == 'UnaryOperator' and f.N(i).get('op') == '-' and is_lim(i)]
+        lows = [i for i in limc if q.short_of(f.callee(i) or '') == 'lowest']
+        def bound(lower):
+            def p(atom, pol):
+                n_ = f.N(atom)
+                if n_['k'] != 'BinaryOperator' or n_.get('op') not in ('<', '>', '<=', '>=') or pol is not False or not is_lim(atom):
+                    return False
+                has_low = any(f.contains(atom, x_) for x_ in negs + lows)
+                return has_low if lower else not has_low
+            return p
+        g_lo, g_hi = f.gate_edges(bound(True)), f.gate_edges(bound(False))
         sinks = [r_ for r_ in f.returns() if f.ret_value(r_) is not None] + [i for i in f.calls() if q.short_of(f.callee(i) or '') == 'number' and f.args(i)]
-        neg = [i for i in f.all_nodes() if f.N(i)['k'] == 'UnaryOperator' and f.N(i).get('op') == '-' and any('numeric_limits' in (f.callee(j) or '') for j in f.calls(i))]
-        ok = len(lim) >= 2 and all(x == 'std::numeric_limits<%s>::max' % tgt or x == 'std::numeric_limits<%s>::lowest' % tgt for x in lim) and len(g) >= 2 and bool(sinks) and \
-            all(f.only_through(s_, g) for s_ in sinks) and (len(neg) == 1 or any(x.endswith('lowest') for x in lim))
+        ok = len(lim) >= 1 and all(x == 'std::numeric_limits<%s>::max' % tgt or x == 'std::numeric_limits<%s>::lowest' % tgt for x in lim) and bool(g_lo) and bool(g_hi) and bool(sinks) and \
+            all(f.only_through(s_, g_lo) and f.only_through(s_, g_hi) for s_ in sinks)
         ctx.check(ok, R7, 'traits<%s>::%s:both-bounds-are-the-limits-of-%s' % ('float' if tgt == 'float' else 'long double', f.short, tgt),
                   'the range test uses %s: a value outside the range of %s is converted silently (to an infinity the writer cannot represent)' % (lim, tgt), f.where)
 
